@@ -661,6 +661,101 @@ fn main() {
             "per_action": stats.per_action, "per_depth_states": stats.per_depth_states,
         }));
     }
+    // ---- Part A2: save programs. Two writers start from the same (stale) head; writer 0
+    // makes one or two saves, writer 1 one or two saves, every save writes every non-empty
+    // subset of three keys, in every interleaving of the saves. This reaches divergent heads
+    // with several unsquashed segments above the common ancestor (a later save overwriting
+    // a key of an earlier one), which the BFS alphabet (two keys) only reaches at depth > 9.
+    let program_histories = vcommon::Counter::new();
+    {
+        let keys3: Vec<u8> = vec![1, 2, 3];
+        let subsets: Vec<Vec<u8>> =
+            (1u8..8).map(|m| (0..3).filter(|b| m >> b & 1 == 1).map(|b| b + 1).collect()).collect();
+        let mut programs: Vec<Vec<Vec<u8>>> = vec![];
+        for a in &subsets {
+            programs.push(vec![a.clone()]);
+        }
+        if ctx.thorough() {
+            for a in &subsets {
+                for b in &subsets {
+                    programs.push(vec![a.clone(), b.clone()]);
+                }
+            }
+        } else {
+            // quick: second saves of one key (every first save)
+            for a in &subsets {
+                for k in 1u8..=3 {
+                    programs.push(vec![a.clone(), vec![k]]);
+                }
+            }
+        }
+        // interleavings of (n0 saves of writer 0, n1 saves of writer 1) as bit strings
+        fn interleavings(n0: usize, n1: usize) -> Vec<Vec<usize>> {
+            let mut out = vec![];
+            fn rec(cur: &mut Vec<usize>, a: usize, b: usize, out: &mut Vec<Vec<usize>>) {
+                if a == 0 && b == 0 {
+                    out.push(cur.clone());
+                    return;
+                }
+                if a > 0 {
+                    cur.push(0);
+                    rec(cur, a - 1, b, out);
+                    cur.pop();
+                }
+                if b > 0 {
+                    cur.push(1);
+                    rec(cur, a, b - 1, out);
+                    cur.pop();
+                }
+            }
+            rec(&mut vec![], n0, n1, &mut out);
+            out
+        }
+        let mut cases: Vec<(usize, Vec<Act>)> = vec![];
+        for prefill in [0usize, 3, 8] {
+            for p0 in &programs {
+                for p1 in &programs {
+                    if ctx.quick() && p0.len() + p1.len() > 3 {
+                        continue;
+                    }
+                    for order in interleavings(p0.len(), p1.len()) {
+                        let mut h = vec![Act::Load(0), Act::Load(1)];
+                        let mut idx = [0usize, 0usize];
+                        for w in order {
+                            let prog = if w == 0 { p0 } else { p1 };
+                            for k in &prog[idx[w]] {
+                                h.push(Act::Put(w, *k));
+                            }
+                            h.push(Act::Save(w));
+                            idx[w] += 1;
+                        }
+                        cases.push((prefill, h));
+                    }
+                }
+            }
+        }
+        use rayon::prelude::*;
+        cases.par_iter().for_each(|(prefill, h)| {
+            program_histories.inc();
+            match run_history(&root, *prefill, 2, &keys3, h) {
+                Ok(o) => {
+                    if o.squashed {
+                        squashes.inc();
+                    }
+                    if o.merged_heads {
+                        merges.inc();
+                    }
+                }
+                Err((sig, msg)) => ctx.violation(
+                    &sig,
+                    msg,
+                    json!({"part": "api", "prefill": prefill, "writers": 2, "keys": keys3, "history": h}),
+                ),
+            }
+        });
+        transitions += program_histories.get();
+        api_stats.push(json!({"family": "save-programs", "histories": program_histories.get()}));
+    }
     if squashes.get() == 0 || merges.get() == 0 {
         vcommon::machinery_failure("vacuous: no history squashed segments / merged divergent heads");
     }
